@@ -139,7 +139,7 @@ def _run_req(item):
     from netqasm.sdk.build_epr import EprMeasBasis
     from netqasm.sdk.epr_socket import EPRSocket
     i, c = item
-    row = dict(c, id=i, err="", nreq=0, gots=[], qlinks=[], fault="")
+    row = dict(c, id=i, err="", nreq=0, gots=[], qlinks=[], fault="", opened=[])
     try:
         keys = []
         for p in c["ps"]:
@@ -210,6 +210,7 @@ def _run_req(item):
             row["fault"] = str(exc)[:160]
         reqs = conn.stack.requests
         row["nreq"] = len(reqs)
+        row["opened"] = [[int(s_[0]), int(s_[1])] for s_ in conn.stack.sockets]        # (socket id, remote node id) as the stack was told
         for rq in reqs:
             row["gots"].append({f: _val(getattr(rq, f)) for f in rq._fields})
             try:
@@ -239,6 +240,12 @@ def res_cases(tier: str, rng: random.Random) -> List[Dict[str, Any]]:
             for rep in range(reps):
                 out.append(dict(kind="res", reqs=[dict(api=api, role=role, kind=kind, n=n, node=1 + rep % 2, socket=(0, 3)[rep % 2])],
                                 salt=rng.randrange(1 << 20), expect=bool(rep % 2)))
+    # measure-directly requests compiled once and executed twice (other responses the second time)
+    for api, role, kind in RES_APIS:
+        if kind == "M" or api == "create_rsp":
+            for n in (1, 2):
+                out.append(dict(kind="res", reqs=[dict(api=api, role=role, kind=kind, n=n, node=1, socket=0)],
+                                salt=rng.randrange(1 << 20), expect=bool(n % 2), rerun=True))
     # kept qubits consumed (measured destructively / freed) before the flush, handles read afterwards
     for api, role, kind in RES_APIS:
         if kind == "K" and "_seq" not in api:
@@ -281,7 +288,7 @@ def _run_res(item):
 
         def fields(k, kind):
             return dict(create_id=100 + 3 * k + salt, sequence_number=200 + 5 * k + salt, goodness=300 + 7 * k + salt, goodness_time=400 + 11 * k + salt,
-                        measurement_basis=(k + salt) % 5, logical_qubit_id=physs[k])
+                        measurement_basis=(k + salt) % 5, logical_qubit_id=physs[k % len(physs)])
 
         seqmode = any("_seq" in r["api"] for r in c["reqs"])
         if c.get("consume"):
@@ -351,14 +358,31 @@ def _run_res(item):
         # request may arrive (and have to be parked) before those the subroutine is waiting for
         if c.get("reverse"):
             conn.link.remote.reverse()
+        first_run = 0
         try:
-            conn.flush()
+            if c.get("rerun"):
+                # the operations are compiled once and the compiled subroutine is executed twice; the handles are read after
+                # the first execution and (judged) after the second, whose responses carry other values
+                sub_ = conn.compile()
+                sub_.instantiate(conn.app_id)
+                conn.commit_subroutine(sub_)
+                for (what_, hs_, _i) in handles:
+                    for h_ in hs_:
+                        if what_ == "m":
+                            _ = (h_.raw_measurement_outcome, h_.generation_duration, h_.raw_bell_state)
+                first_run = len(conn.link.log)
+                for r, sock in zip(c["reqs"], socks):
+                    if r["role"] == "recv":
+                        conn.link.remote.append(dict(remote=r["node"], purpose=PURPOSE(r["node"], r["socket"]), type=r["kind"], n=r["n"]))
+                conn.commit_subroutine(sub_)
+            else:
+                conn.flush()
         except (rig.ControllerFault, rig.Stuck) as exc:
             row["fault"] = True
             row["exc"] = str(exc)[:200]
             return row
         # responses per request, in pair order (match by remote node and purpose id)
-        log = conn.link.log
+        log = conn.link.log[first_run:]
         for r in c["reqs"]:
             mine = [x for x in log if x.remote_node_id == r["node"] and x.purpose_id == PURPOSE(r["node"], r["socket"])]
             row["responses"].append([[_val(v) for v in x] for x in mine])
@@ -454,7 +478,7 @@ def run(prop: str, tier: str) -> int:
 
 
 def replay_case(prop, case, tmp):
-    keep = ("kind", "ps", "reqs", "salt", "expect", "reverse", "q10", "consume", "earlier_run")
+    keep = ("kind", "ps", "reqs", "salt", "expect", "reverse", "q10", "consume", "earlier_run", "rerun")
     row = _dispatch((1, {k: case[k] for k in keep if k in case}))
     res = C.run_tlc_sharded("EprFields", [row], tmp, shards=1, cfg="EprFields.cfg")
     return res.verdicts[0][1] if res.verdicts else None
